@@ -544,7 +544,11 @@ def c04_transition(ctx: Ctx) -> List[Violation]:
             if l1 <= 0 and vid not in charges:
                 out.append(Violation("C04", "moved_on_empty", (cls, pb), f"vehicle {vid} moved on and ended the step with level {l1} instead of stopping out of service"))
         elif pa == pb and pa in ("Idle", "ChargeQueueing") and vid not in ctx.instructed():
-            if _idle_rate(m) > 0 and l0 > 0:
+            if b is a:
+                # the vehicle's whole update was discarded (an error was returned and logged, e.g. a queued
+                # vehicle whose plug type it cannot use): no idle operation took place; counted, not judged
+                ctx.cov[f"c04:update_discarded:{pa}"] += 1
+            elif _idle_rate(m) > 0 and l0 > 0:
                 ctx.cov[f"c04:idled:{cls}:{pa}"] += 1
                 if not l1 < l0:
                     out.append(Violation("C04", "not_lowered", (cls, pa), f"vehicle {vid} idled {dt} s in {pa} and its level stayed {l1}"))
